@@ -15,6 +15,17 @@ CLAIMED = {
          "(sig_not_dec, sig_forall_dec, functional_extensionality_dep, classic); hand-written model; harness. "
          "Float rounding of -dE/log(p) is not modelled.",
     technique="Coq proof over Q/R + model/implementation correspondence", ref="§5 C15"),
+ "C05": dict(
+    text="Coq theorem C05_tree: for every expression tree over the ten model kinds, DictArithmetic, raw dicts and scalars "
+         "(forward, reflected, in-place, aliased operands), whenever the interpreter (a model of Python's operator dispatch "
+         "and of DictArithmetic's methods) returns, the result evaluates to the polynomial-arithmetic value at every "
+         "boolean/spin assignment, has the left model operand's kind and is stored canonically; per-operator theorems and "
+         "the four value-function theorems. Tied to /repo by exact comparison of results / error kinds on random trees and by "
+         "an implementation-side oracle (truth table + unique multilinear form + purity of operands).",
+    note="Trusted: Coq kernel + vm_compute; no axioms (closed under the global context); hand-written model of "
+         "_dict_arithmetic.py/_pubomatrix.py/_values.py; harness. Uniqueness of the canonical form is checked by the oracle "
+         "(Moebius / Walsh inversion on the implementation), not yet a Coq theorem. Floats only on dyadic values.",
+    technique="Coq proof (induction over expression trees) + model/implementation correspondence", ref="§5 C05"),
 }
 NA_REASON = "check not built yet in this round; see DESIGN.md §8 (order of work)"
 
